@@ -38,8 +38,17 @@ func NewHistogramReporter(h *Histogram) Reporter {
 			return err
 		}
 
-		for i, count := range h.Counts {
-			ratio := float64(count) / float64(h.Total)
+		for i := range h.Buckets {
+			// Counts is only allocated by the first Add: an empty histogram still
+			// shows all its buckets, with zero counts.
+			var count uint64
+			if i < len(h.Counts) {
+				count = h.Counts[i]
+			}
+			var ratio float64
+			if h.Total > 0 {
+				ratio = float64(count) / float64(h.Total)
+			}
 			lo, hi := h.Buckets.Nth(i)
 			pad := strings.Repeat("#", int(ratio*75))
 			_, err = fmt.Fprintf(tw, "[%s,\t%s]\t%d\t%.2f%%\t%s\n", lo, hi, count, ratio*100, pad)
